@@ -11,6 +11,9 @@ import (
 	"golang.org/x/tools/go/ssa"
 )
 
+// coverReturns: also check reachability of every return (thorough tier); cover:pre is always checked.
+var coverReturns = false
+
 type FuncResult struct {
 	Key    string
 	Mode   string
@@ -110,7 +113,10 @@ func (P *Program) verifyFunction(con *Contract) (res *FuncResult) {
 	// ensures at each return
 	for ri, r := range fr.rets {
 		site := fmt.Sprintf("ret%d", ri+1)
-		g.cover(site, r.st.path)
+		if coverReturns {
+			g.cover(site, r.st.path)
+		}
+		var posts []*Obligation
 		for ei, en := range con.Ensures {
 			ctx := &specCtx{fr: fr, st: r.st, old: fr.entry, kind: ctxPost, pkg: con.Pkg, results: r.vals}
 			t := fr.evalBool(en.Expr, ctx)
@@ -123,7 +129,9 @@ func (P *Program) verifyFunction(con *Contract) (res *FuncResult) {
 				o.oracle = oc
 				o.oracleRes = oracleRes
 			}
+			posts = append(posts, o)
 		}
+		g.groupObligations(g.fnKey+"#postgroup@"+site, posts)
 		if con.HasAssigns {
 			fr.frameObligation(r.st, site)
 		}
